@@ -7,6 +7,7 @@
   c06.lex, c06.atoms, c06.numbers, c06.terms.
 -/
 import PrologVerif.Proofs.LexerSpec
+import PrologVerif.Proofs.LexerRing
 import PrologVerif.Proofs.ReadBack
 import PrologVerif.Proofs.CanonRoundtrip
 namespace PrologVerif.C06Example
@@ -84,6 +85,19 @@ theorem C06_ring_sound (cfg : Cfg) (l l' : Lexer) (t : Token) (h : RingOK l)
   refine ⟨this.1, this.1.1, ?_⟩
   have := this.1.2.2.1
   omega
+
+/-- The Go data structure itself (`buf [4]rune`, `start`, `end` modulo 4: `RuneRing`) refines the
+    zipper the model runs on: from corresponding states, `ReadRune` delivers the same rune (or both
+    report io.EOF) and `UnreadRune` is `backup` whenever a backup is in credit (`RI 1`: the slot behind
+    `start` holds the rune read last and `start` will not meet `end`) — which is exactly the condition
+    under which the ghost flag `sound` survives, and `C06_ring_sound` shows it always survives. -/
+theorem C06_ring_refines (c : RuneRing) (l : Lexer) (ha : Abs c l) :
+    (RI 0 l → match rawNext l, c.ReadRune with
+      | some (r, l'), some (r', c') => r = r' ∧ Abs c' l'
+      | none, none => True
+      | _, _ => False) ∧
+    (RI 1 l → Abs c.UnreadRune (backup l) ∧ RI 0 (backup l)) :=
+  ⟨abs_read c l ha, abs_unread c l ha⟩
 
 /-- hence all states reached by any number of `Token` calls on any text are sound, and the token
     sequence is finite: `tokens` with fuel `length + 1` ends with io.EOF, never with "out of fuel" -/
